@@ -134,7 +134,97 @@ func resolveAlgRows(c *Ctx, ev *evaluator, fn *ssa.Function, roles map[int64]str
 			}
 		}
 	}
+	if len(rows) == 0 {
+		// no switch over the parameter: the table is data. Evaluate the function for every declared constant.
+		tagT, _ := tag.Type().(*types.Named)
+		if tagT == nil {
+			return rows, errRows, ""
+		}
+		for _, k := range c.constsOf(tagT) {
+			label, exact := constant.Int64Val(k.Val())
+			if !exact {
+				continue
+			}
+			assume := map[*ssa.Parameter]int64{tag: label}
+			row := get(label)
+			for _, ret := range returnsOf(fn) {
+				// feasibility of the return itself
+				errAlts := c.evalValUnder(ev, retResults(ret)[idx["err"]], assume, 0)
+				if !blockFeasibleUnder(c, ev, ret.Block(), assume) {
+					continue
+				}
+				for _, e := range errAlts {
+					if e.Kind != "nil" {
+						errRows[label] = true
+					}
+				}
+				for what, i := range idx {
+					if what == "err" {
+						continue
+					}
+					alts := c.evalValUnder(ev, retResults(ret)[i], assume, 0)
+					if len(alts) != 1 {
+						continue
+					}
+					d := alts[0]
+					switch what {
+					case "hashID":
+						if d.IsConst() {
+							row.hashID = c.constName(res.At(i).Type(), d.Const)
+						} else {
+							row.hashID = d.String()
+						}
+					case "hash":
+						if d.Kind == "call" && strings.HasSuffix(d.Fn, "crypto.Hash).New") && len(d.Args) == 1 && d.Args[0].IsConst() {
+							row.hashNew = c.constName(c.typeOfCryptoHash(fn), d.Args[0].Const)
+							row.pos = d.Pos
+						} else {
+							row.hashNew = d.String()
+						}
+					case "oid":
+						if d.Kind == "ints" {
+							row.oid = oidString(d.Ints)
+						} else {
+							row.oid = d.String()
+						}
+					case "key":
+						if n, ok := d.Int(); ok {
+							row.key = roles[n]
+						} else {
+							row.key = d.String()
+						}
+					}
+				}
+			}
+			if errRows[label] && row.hashID == "" {
+				delete(rows, label)
+			}
+		}
+	}
 	return rows, errRows, ""
+}
+
+// blockFeasibleUnder: the branch conditions that dominate b are consistent with the assumed parameter values
+// (parameter == constant tests and `_, ok := table[param]` tests).
+func blockFeasibleUnder(c *Ctx, ev *evaluator, b *ssa.BasicBlock, assume map[*ssa.Parameter]int64) bool {
+	for _, g := range guardsOf(b) {
+		alts := c.evalValUnder(ev, g.Cond, assume, 0)
+		if len(alts) != 1 || !alts[0].IsConst() || alts[0].Const.Kind() != constant.Bool {
+			if u, ok := g.Cond.(*ssa.UnOp); ok && u.Op == token.NOT {
+				alts = c.evalValUnder(ev, u.X, assume, 0)
+				if len(alts) == 1 && alts[0].IsConst() && alts[0].Const.Kind() == constant.Bool {
+					if constant.BoolVal(alts[0].Const) == g.Truth {
+						return false
+					}
+				}
+			}
+			continue
+		}
+		if constant.BoolVal(alts[0].Const) != g.Truth {
+			return false
+		}
+	}
+	return true
 }
 
 func (c *Ctx) typeOfCryptoHash(fn *ssa.Function) types.Type {
@@ -357,7 +447,8 @@ func ruleTabKeyAlg(c *Ctx, r *Rep) {
 		}
 		curveFn[k] = vs[i].Fn
 	}
-	// RSA bit sizes: in the function calling rsa.GenerateKey, the bits argument per case label of the key-algorithm parameter
+	// RSA bit sizes: for every key-algorithm constant, the bit size that reaches rsa.GenerateKey when the function's
+	// key-algorithm parameter has that value (evaluated through switches, module helpers and package-level tables)
 	bits := map[int64]int64{}
 	gen := c.funcsCalling("crypto/rsa.GenerateKey")
 	var genFn *ssa.Function
@@ -368,35 +459,62 @@ func ruleTabKeyAlg(c *Ctx, r *Rep) {
 		r.Undecided("anchor:rsa.GenerateKey", "", sprintf("expected one function calling rsa.GenerateKey, found %d", len(gen)))
 		return
 	}
-	var algParam *ssa.Parameter
-	for _, p := range genFn.Params {
-		if c.isModNamed("KeyAlgorithm")(p.Type()) {
-			algParam = p
+	algParamOf := func(f *ssa.Function) *ssa.Parameter {
+		for _, p := range f.Params {
+			if c.isModNamed("KeyAlgorithm")(p.Type()) {
+				return p
+			}
 		}
+		return nil
 	}
+	algParam := algParamOf(genFn)
 	if algParam == nil {
 		r.Undecided("shape:"+c.FuncKey(genFn), c.FnPos(genFn), "no KeyAlgorithm parameter")
 		return
 	}
-	for _, ci := range gen[genFn] {
-		for _, pe := range phiEdges(ci.Common().Args[1], ci.Block()) {
-			k, ok := caseLabel(pe.From, func(v ssa.Value) bool { return v == ssa.Value(algParam) })
-			kc, isConst := pe.Val.(*ssa.Const)
-			if !ok {
-				if isConst && kc.Int64() == 0 {
-					continue // zero value of the declaration; the default case returns an error (checked below)
+	// a helper receives the algorithm from its callers unchanged
+	var passedOn func(f *ssa.Function, d int) bool
+	passedOn = func(f *ssa.Function, d int) bool {
+		if f.Object() != nil && f.Object().Exported() || d > 3 {
+			return true
+		}
+		p := algParamOf(f)
+		idx := -1
+		for i, q := range f.Params {
+			if q == p {
+				idx = i
+			}
+		}
+		n := 0
+		for _, caller := range c.Funcs {
+			for _, ci := range callsIn(caller) {
+				if ci.Common().StaticCallee() != f || idx < 0 || idx >= len(ci.Common().Args) {
+					continue
 				}
-				r.Undecided("shape:"+c.FuncKey(genFn)+"|bits", c.Pos(ci.Pos()), "bit size reaching rsa.GenerateKey without a key-algorithm case label: "+pe.Val.String())
+				n++
+				ap, ok := ci.Common().Args[idx].(*ssa.Parameter)
+				if !ok || ap != algParamOf(caller) || !passedOn(caller, d+1) {
+					return false
+				}
+			}
+		}
+		return n > 0
+	}
+	r.Check(passedOn(genFn, 0), "rsa-generate-same-algorithm|"+c.FuncKey(genFn), c.FnPos(genFn), "the RSA generator is handed the configured key algorithm unchanged", "call sites checked")
+	for _, ci := range gen[genFn] {
+		for k, kind := range kinds {
+			if kind != "rsa" {
 				continue
 			}
-			if !isConst {
-				r.Undecided("shape:"+c.FuncKey(genFn)+"|bits", c.Pos(ci.Pos()), "non-constant bit size")
+			vals, ok := evalIntUnder(c, ev, ci.Common().Args[1], map[*ssa.Parameter]int64{algParam: k}, 0)
+			if !ok || len(vals) != 1 {
+				r.Undecided("shape:"+c.FuncKey(genFn)+sprintf("|bits|%d", k), c.Pos(ci.Pos()), sprintf("cannot evaluate the bit size for key algorithm %d: %v", k, vals))
 				continue
 			}
-			bits[k.Int64()] = kc.Int64()
+			bits[k] = vals[0]
 		}
 	}
-	// the EC generator: ecdsa.GenerateKey's curve argument is a lookup in the curves table by the same parameter
+	// the EC generator: ecdsa.GenerateKey's curve argument is a lookup in the curves table by the key-algorithm parameter
 	ecGen := c.funcsCalling("crypto/ecdsa.GenerateKey")
 	okLookup := false
 	for f, cis := range ecGen {
@@ -406,7 +524,7 @@ func ruleTabKeyAlg(c *Ctx, r *Rep) {
 				if ex, ok := v.(*ssa.Extract); ok {
 					v = ex.Tuple
 				}
-				if lk, ok := v.(*ssa.Lookup); ok && loadsGlobal(lk.X, cv[0].Object()) && f == genFn && lk.Index == ssa.Value(algParam) {
+				if lk, ok := v.(*ssa.Lookup); ok && loadsGlobal(lk.X, cv[0].Object()) && algParamOf(f) != nil && lk.Index == ssa.Value(algParamOf(f)) && passedOn(f, 0) {
 					okLookup = true
 				}
 			}
@@ -568,7 +686,8 @@ func ruleTabCurveOid(c *Ctx, r *Rep) {
 		return
 	}
 	byConst := map[string]string{} // reference const name -> OID found
-	for i := range ks {
+	_ = ks
+	for i := range vs {
 		// key must be curves[K].Params().Name
 		k := ks[i]
 		var kc *Val
@@ -584,13 +703,23 @@ func ruleTabCurveOid(c *Ctx, r *Rep) {
 	// keys: re-read from the AST (curves[K].Params().Name)
 	_, _, keyExprs := ev.InitAssignments(g.Object())
 	pp, _ := c.PkgBySuffix("generator/cert")
-	if len(keyExprs) != len(ks) {
-		r.Undecided("shape:"+g.Name(), c.Pos(g.Pos()), "table is not filled by init assignments only")
-		return
-	}
 	curvesG := c.globalsOfType(func(t types.Type) bool {
 		return isMapOf(t, c.isModNamed("KeyAlgorithm"), func(e types.Type) bool { return typeIs(e, "crypto/elliptic", "Curve") })
 	})
+	tableForm := false
+	if len(keyExprs) == 0 || len(keyExprs) != len(ks) {
+		// data-driven form: init ranges over a table of (key algorithm, OID) and fills the map from it
+		rows, why := curveNameOidsFromTable(c, ev, g, curvesG)
+		if why != "" {
+			r.Undecided("shape:"+g.Name(), c.Pos(g.Pos()), "table is not filled by init assignments only, and not from a table of entries: "+why)
+			return
+		}
+		for k, o := range rows {
+			byConst[k] = o
+		}
+		_ = tableForm
+		keyExprs = nil
+	}
 	for i, ke := range keyExprs {
 		kname, why := curveKeyConst(c, pp.TypesInfo, ke, curvesG)
 		if why != "" {
@@ -678,7 +807,45 @@ func namedCurveInverse(c *Ctx, ev *evaluator, curvesG []*ssa.Global) (map[string
 			}
 			kc, ok := lk.Index.(*ssa.Const)
 			if !ok {
-				return nil, fn, "curves index is not constant"
+				// data-driven form: for _, e := range <table> { if oid.Equal(e.O) { return curves[e.K] } }
+				tab, kField := tableElemField(lk.Index)
+				if tab == nil {
+					return nil, fn, "curves index is not constant"
+				}
+				oField := ""
+				for _, g := range append(guardsOf(pe.From), guardsOf(ret.Block())...) {
+					call, ok := g.Cond.(*ssa.Call)
+					if !ok || !g.Truth || calleeFullName(call) != "(encoding/asn1.ObjectIdentifier).Equal" {
+						continue
+					}
+					for _, pair := range [][2]ssa.Value{{call.Call.Args[0], call.Call.Args[1]}, {call.Call.Args[1], call.Call.Args[0]}} {
+						if pair[0] == ssa.Value(fn.Params[0]) {
+							if t2, f2 := tableElemField(pair[1]); t2 == tab {
+								oField = f2
+							}
+						}
+					}
+				}
+				if oField == "" {
+					return nil, fn, "curve looked up by a table entry without an OID equality guard on the same entry"
+				}
+				rows, why := tableRows(c, ev, tab)
+				if why != "" {
+					return nil, fn, why
+				}
+				for _, row := range rows {
+					k, okK := row[kField].Int()
+					o := row[oField]
+					if !okK || o == nil || o.Kind != "ints" {
+						return nil, fn, "table entry is not (constant, OID literal)"
+					}
+					oid := oidString(o.Ints)
+					if _, dup := out[oid]; dup {
+						return nil, fn, "OID " + oid + " handled twice"
+					}
+					out[oid] = sprintf("%d", k)
+				}
+				continue
 			}
 			// guard: oid.Equal(<global oid>) true edge
 			var oid string
@@ -1031,4 +1198,322 @@ func sortedKeys(m map[string]string) []string {
 	}
 	sort.Strings(ks)
 	return ks
+}
+
+// evalIntUnder evaluates an integer SSA value under the assumption that some parameters have given constant values:
+// phis keep the edges whose source block is consistent with the assumption (switch cases), calls of module functions
+// are followed into their feasible returns, lookups in package-level map literals are looked up.
+func evalIntUnder(c *Ctx, ev *evaluator, v ssa.Value, assume map[*ssa.Parameter]int64, depth int) ([]int64, bool) {
+	if depth > 6 {
+		return nil, false
+	}
+	feasible := func(b *ssa.BasicBlock) bool {
+		for _, g := range guardsOf(b) {
+			bin, ok := g.Cond.(*ssa.BinOp)
+			if !ok || (bin.Op != token.EQL && bin.Op != token.NEQ) {
+				continue
+			}
+			p, okP := bin.X.(*ssa.Parameter)
+			k, okK := bin.Y.(*ssa.Const)
+			if !okP || !okK || k.Value == nil {
+				continue
+			}
+			val, known := assume[p]
+			if !known {
+				continue
+			}
+			eq := val == k.Int64()
+			if (bin.Op == token.EQL) != (eq == g.Truth) {
+				return false
+			}
+		}
+		return true
+	}
+	uniqI := func(in []int64) []int64 {
+		m := map[int64]bool{}
+		var out []int64
+		for _, x := range in {
+			if !m[x] {
+				m[x] = true
+				out = append(out, x)
+			}
+		}
+		return out
+	}
+	argVal := func(a ssa.Value) (int64, bool) {
+		if p, ok := a.(*ssa.Parameter); ok {
+			val, known := assume[p]
+			return val, known
+		}
+		if k, ok := a.(*ssa.Const); ok && k.Value != nil && k.Value.Kind() == constant.Int {
+			return k.Int64(), true
+		}
+		return 0, false
+	}
+	callResult := func(call *ssa.Call, idx int) ([]int64, bool) {
+		g := call.Call.StaticCallee()
+		if g == nil || !c.InModule(g) || g.Blocks == nil {
+			return nil, false
+		}
+		as2 := map[*ssa.Parameter]int64{}
+		for i, prm := range g.Params {
+			if i < len(call.Call.Args) {
+				if val, ok := argVal(call.Call.Args[i]); ok {
+					as2[prm] = val
+				}
+			}
+		}
+		var out []int64
+		n := 0
+		for _, ret := range returnsOf(g) {
+			rr := retResults(ret)
+			if idx >= len(rr) {
+				return nil, false
+			}
+			for _, pe := range phiEdges(rr[idx], ret.Block()) {
+				from := pe.From
+				if from == nil {
+					from = ret.Block()
+				}
+				// feasibility under the callee's assumption
+				saved := assume
+				assume = as2
+				okF := feasible(from) && feasible(ret.Block())
+				assume = saved
+				if !okF {
+					continue
+				}
+				vals, ok := evalIntUnder(c, ev, pe.Val, as2, depth+1)
+				if !ok {
+					return nil, false
+				}
+				n++
+				out = append(out, vals...)
+			}
+		}
+		return uniqI(out), n > 0
+	}
+	switch x := v.(type) {
+	case *ssa.Const:
+		if x.Value != nil && x.Value.Kind() == constant.Int {
+			return []int64{x.Int64()}, true
+		}
+		return nil, false
+	case *ssa.Parameter:
+		if val, ok := assume[x]; ok {
+			return []int64{val}, true
+		}
+		return nil, false
+	case *ssa.Phi:
+		var out []int64
+		for i, e := range x.Edges {
+			if !feasible(x.Block().Preds[i]) {
+				continue
+			}
+			vals, ok := evalIntUnder(c, ev, e, assume, depth+1)
+			if !ok {
+				return nil, false
+			}
+			out = append(out, vals...)
+		}
+		return uniqI(out), len(out) > 0
+	case *ssa.Call:
+		return callResult(x, 0)
+	case *ssa.Extract:
+		switch t := x.Tuple.(type) {
+		case *ssa.Call:
+			return callResult(t, x.Index)
+		case *ssa.Lookup:
+			if x.Index == 0 {
+				return evalIntUnder(c, ev, t, assume, depth+1)
+			}
+		}
+		return nil, false
+	case *ssa.Lookup:
+		u, ok := x.X.(*ssa.UnOp)
+		if !ok {
+			return nil, false
+		}
+		g, ok := u.X.(*ssa.Global)
+		if !ok {
+			return nil, false
+		}
+		key, ok := argVal(x.Index)
+		if !ok {
+			return nil, false
+		}
+		ks, vs, why := tableOfGlobal(c, ev, g)
+		if why != "" {
+			return nil, false
+		}
+		for i := range ks {
+			if kk, ok := ks[i].Int(); ok && kk == key {
+				if vv, ok := vs[i].Int(); ok {
+					return []int64{vv}, true
+				}
+				return nil, false
+			}
+		}
+		return []int64{0}, true // absent key: zero value
+	case *ssa.Convert:
+		return evalIntUnder(c, ev, x.X, assume, depth+1)
+	case *ssa.ChangeType:
+		return evalIntUnder(c, ev, x.X, assume, depth+1)
+	}
+	return nil, false
+}
+
+// tableElemField: v is the load of field F of an element of a package-level slice (the element of a range loop over
+// it): returns the slice variable and the field name.
+func tableElemField(v ssa.Value) (*ssa.Global, string) {
+	u, ok := v.(*ssa.UnOp)
+	if !ok || u.Op != token.MUL {
+		if f, isF := v.(*ssa.Field); isF {
+			// value form: (load of element).F
+			if l, ok := f.X.(*ssa.UnOp); ok && l.Op == token.MUL {
+				if ia, ok := l.X.(*ssa.IndexAddr); ok {
+					if g := loadedGlobal(ia.X); g != nil {
+						return g, fieldOfVal(f).Name()
+					}
+				}
+			}
+		}
+		return nil, ""
+	}
+	fa, ok := u.X.(*ssa.FieldAddr)
+	if !ok {
+		return nil, ""
+	}
+	switch base := fa.X.(type) {
+	case *ssa.IndexAddr:
+		if g := loadedGlobal(base.X); g != nil {
+			return g, fieldOfAddr(fa).Name()
+		}
+	case *ssa.Alloc:
+		// the element was copied into a local (range value variable): *local = table[i]
+		if base.Referrers() != nil {
+			for _, r := range *base.Referrers() {
+				if st, ok := r.(*ssa.Store); ok && st.Addr == ssa.Value(base) {
+					if l, ok := st.Val.(*ssa.UnOp); ok && l.Op == token.MUL {
+						if ia, ok := l.X.(*ssa.IndexAddr); ok {
+							if g := loadedGlobal(ia.X); g != nil {
+								return g, fieldOfAddr(fa).Name()
+							}
+						}
+					}
+				}
+			}
+		}
+	}
+	return nil, ""
+}
+
+func loadedGlobal(v ssa.Value) *ssa.Global {
+	if u, ok := v.(*ssa.UnOp); ok && u.Op == token.MUL {
+		if g, ok := u.X.(*ssa.Global); ok {
+			return g
+		}
+	}
+	return nil
+}
+
+// tableRows: the entries of a package-level slice-of-struct literal as field maps.
+func tableRows(c *Ctx, ev *evaluator, g *ssa.Global) ([]map[string]*Val, string) {
+	if w := c.globalWrites(g.Object()); len(w) > 0 {
+		return nil, g.Name() + " is modified outside package initialisation"
+	}
+	v := ev.GlobalVal(g.Object())
+	if v.Kind != "list" {
+		return nil, g.Name() + " is not a list literal: " + v.String()
+	}
+	var out []map[string]*Val
+	for _, e := range v.Elems {
+		if e.Kind != "struct" || e.Fields == nil {
+			return nil, g.Name() + " has an entry that is not a struct literal"
+		}
+		out = append(out, e.Fields)
+	}
+	return out, ""
+}
+
+// curveNameOidsFromTable recognises, in the package initialiser, `for _, e := range T { M[curves[e.K].Params().Name] = e.O }`
+// and returns key-algorithm constant (as decimal string) -> OID for every entry of T.
+func curveNameOidsFromTable(c *Ctx, ev *evaluator, m *ssa.Global, curvesG []*ssa.Global) (map[string]string, string) {
+	if len(curvesG) != 1 {
+		return nil, "curves table not unique"
+	}
+	out := map[string]string{}
+	n := 0
+	for _, fn := range c.Funcs {
+		if !isInitFunc(fn) {
+			continue
+		}
+		for _, b := range fn.Blocks {
+			for _, ins := range b.Instrs {
+				mu, ok := ins.(*ssa.MapUpdate)
+				if !ok || loadedGlobal(mu.Map) != m {
+					continue
+				}
+				n++
+				tabV, oField := tableElemField(mu.Value)
+				if tabV == nil {
+					return nil, "a value stored into " + m.Name() + " is not a field of a table entry"
+				}
+				// key: (curves[e.K]).Params().Name
+				kField := ""
+				var walk func(v ssa.Value, d int)
+				walk = func(v ssa.Value, d int) {
+					if d > 8 || v == nil {
+						return
+					}
+					switch x := v.(type) {
+					case *ssa.UnOp:
+						walk(x.X, d+1)
+					case *ssa.FieldAddr:
+						walk(x.X, d+1)
+					case *ssa.Field:
+						walk(x.X, d+1)
+					case *ssa.Call:
+						if x.Call.IsInvoke() {
+							walk(x.Call.Value, d+1)
+						} else if len(x.Call.Args) > 0 {
+							walk(x.Call.Args[0], d+1)
+						}
+					case *ssa.Extract:
+						walk(x.Tuple, d+1)
+					case *ssa.Lookup:
+						if loadedGlobal(x.X) == curvesG[0] {
+							if t2, f2 := tableElemField(x.Index); t2 == tabV {
+								kField = f2
+							}
+						}
+					}
+				}
+				walk(mu.Key, 0)
+				if kField == "" {
+					return nil, "the key stored into " + m.Name() + " is not derived from curves[<entry>.K]"
+				}
+				rows, why := tableRows(c, ev, tabV)
+				if why != "" {
+					return nil, why
+				}
+				for _, row := range rows {
+					k, okK := row[kField].Int()
+					o := row[oField]
+					if !okK || o == nil || o.Kind != "ints" {
+						return nil, "table entry is not (constant, OID literal)"
+					}
+					key := sprintf("%d", k)
+					if _, dup := out[key]; dup {
+						return nil, "key algorithm " + key + " listed twice"
+					}
+					out[key] = oidString(o.Ints)
+				}
+			}
+		}
+	}
+	if n == 0 {
+		return nil, "no store into " + m.Name() + " in a package initialiser"
+	}
+	return out, ""
 }
